@@ -131,7 +131,7 @@ func replayMain(path string) int {
 			fmt.Fprintln(os.Stderr, "bad hand case:", err)
 			return 2
 		}
-		h := &Hand{Prop: v.Prop, C: hc.Cfg, R: caseRand(v.Seed, 0, 0), Rep: rep, Seed: v.Seed, Scripted: scriptFromTrace(hc.Trace), Replaying: true}
+		h := &Hand{Prop: v.Prop, C: hc.Cfg, R: caseRand(v.Seed, 0, 0), Rep: rep, Seed: v.Seed, ReplayTrace: hc.Trace, Replaying: true}
 		mon := monitorFor(v.Prop)
 		if mon == nil {
 			fmt.Fprintln(os.Stderr, "no hand monitor for", v.Prop)
